@@ -57,10 +57,10 @@ class Finding:
 SEMANTIC_RULES = {
     "C01": {"R1", "R3", "R4"},
     "C02": {"R1", "R2", "R3", "R5", "R7", "R8"},
-    "C03": {"R1", "R4", "R5", "R6", "R7", "R6v"},
-    "C04": {"R1", "R2", "R3", "R4", "R9"},
+    "C03": {"R1", "R4", "R5", "R6", "R7", "R6v", "R8v"},
+    "C04": {"R1", "R2", "R3", "R4", "R9", "R10"},
     "C05": {"R1", "R2", "R3", "R6", "R8", "R9"},
-    "C06": {"R1", "R2", "R3", "R4", "R5", "R6v", "R8"},
+    "C06": {"R1", "R2", "R3", "R4", "R5", "R6v", "R8", "R8v"},
     "C07": {"R1s", "R1v", "R2", "R4", "R5v"},
     "C08": {"G2", "G6r", "G6v", "G8", "G8v", "G9"},
     "C09": {"R4", "R5"},
